@@ -9,7 +9,7 @@ def nontrivial(p, line):
 
 
 def run(tier, seed):
-    return pipe.run_property("C05", tier, seed, ['hall', 'super', 'noise'], PROPS,
+    return pipe.run_property("C05", tier, seed, ['hall', 'super', 'noise', 'lowsym'], PROPS,
                              {"rule": 'every Hall setting (own + re-based/shifted/rotated), supercells, noisy twins; non-trivial when a dataset was returned for a re-described input (origin shift always on)'},
                              nontrivial,
                              trusted=["premise validation of the generator (the generated crystal has exactly the generating group, symmetry gap >= 0.2 A) is a brute-force search in Rust, independent of moyo",
